@@ -6,6 +6,8 @@ Import ListNotations.
 Open Scope Z_scope.
 
 Ltac split_and H H' := apply andb_true_iff in H; destruct H as [H H'].
+Lemma if_and : forall a b : bool, (if a then b else false) = true <-> a = true /\ b = true.
+Proof. intros [|] [|]; cbn; tauto. Qed.
 
 (** * the undirected simple view *)
 Lemma joinedb_spec : forall g u v, joinedb g u v = true <-> joined g u v.
@@ -72,13 +74,13 @@ Proof.
   intros g v Hwf. unfold tri_count_spec, tri_count, tri_pairs. cbv zeta. apply counts_filter.
   - apply NoDup_list_prod; apply nbrs_NoDup; assumption.
   - intros [a b]. unfold tri_at. cbn [fst snd]. rewrite in_prod_iff, !nbrs_In by assumption.
-    rewrite andb_true_iff, Z.ltb_lt, adjb_spec. tauto.
+    rewrite if_and, Z.ltb_lt, adjb_spec. tauto.
 Qed.
 Lemma tri_total_ok : forall g, wf g -> tri_total_spec g (tri_total g).
 Proof.
   intros g Hwf. unfold tri_total_spec, tri_total, tri_triples. apply counts_filter.
   - destruct Hwf as [N _]. repeat apply NoDup_list_prod; assumption.
-  - intros [[a b] c]. cbn [fst snd]. rewrite !in_prod_iff, !andb_true_iff, !Z.ltb_lt, !adjb_spec. split; [|tauto].
+  - intros [[a b] c]. cbn [fst snd]. rewrite !in_prod_iff, !if_and, !Z.ltb_lt, !adjb_spec. split; [|tauto].
     intros [H1 [H2 [A1 [A2 A3]]]]. split; [|tauto].
     destruct A1 as [_ J1]. destruct A2 as [_ J2]. destruct (joined_nodes g a b Hwf J1). destruct (joined_nodes g b c Hwf J2). tauto.
 Qed.
